@@ -141,7 +141,7 @@ func maxWidth(items Items, padding, low, high int) int {
 	width := 0
 	for i := low; i < high && i < n; i++ {
 		w := 0
-		for _, seg := range items.Show(i) {
+		for _, seg := range showControlChars(items.Show(i)) {
 			w += wcwidth.Of(seg.Text)
 		}
 		if width < w {
